@@ -41,7 +41,7 @@ RULE = (
 ASSUMPTIONS = [
     "aiosqlite is replaced by a FIFO completion shim over a real sqlite3 connection (vf/engine/dbshim.py); datetime.now in gallia.services.uds.ecu follows the virtual clock",
     "scripted transport: one reply / fault per exchange, max_retry 0 (one transmission per exchange) unless stated",
-    "an exchange that was in flight when the run was cancelled may or may not have a row; every exchange completed before must have one",
+    "an exchange that was in flight when the run was cancelled has its row too (request bytes pinned down, reply / exception / times not); every exchange completed before has a fully checked one",
     "reference client state: positive DSC sets the session and clears security, positive even SecurityAccess sets level type-1, positive ECUReset resets, positive read of F186 sets the session",
 ]
 
@@ -185,7 +185,9 @@ def build(item: dict[str, Any], box: dict[str, Any]) -> Any:
         box.update(st=st, path=path, completed=0, results=[], worker=worker)
         if item.get("db_fault") is not None:
             # a transient 'database is locked' (e.g. another process reading the file) for the k-th scan_result INSERT
-            worker.fail_matching.append(("execute:INSERT:scan_result", item["db_fault"], dbshim.OperationalError("database is locked")))
+            ks = item["db_fault"] if isinstance(item["db_fault"], list) else [item["db_fault"]]
+            for kf in sorted(ks):  # (counted over all INSERT attempts incl. repeats; ascending so that each entry is reached)
+                worker.fail_matching.append(("execute:INSERT:scan_result", kf, dbshim.OperationalError("database is locked")))
         loop = run.loop
         dbh = G["DBHandler"](path)
         ecu = G["ECU"](G["ScriptTransport"](st), timeout=1.0, max_retry=item.get("max_retry", 0))
@@ -317,6 +319,11 @@ def judge(item: dict[str, Any], box: dict[str, Any], choices: list[int], res: Re
         k += 1
     must = [e for e in exp if not e["inflight"]]
     may = [e for e in exp if e["inflight"]]
+    if len(rows) >= len(must) and len(rows) != len(exp):
+        # "every request the client puts on the wire - whatever its outcome": also the one in flight when the run was cancelled
+        v("row-count|exchange-in-flight-at-cancel|" + ("missing" if len(rows) < len(exp) else "extra-rows"),
+          f"{len(rows)} scan_result rows for {len(exp)} requests on the wire (logging on); the run was cancelled with request #{box.get('cancelled')} in flight, {box.get('cancel_completed')} exchanges were complete")
+        return
     if len(rows) < len(must) or len(rows) > len(must) + len(may):
         first_missing = must[len(rows)] if len(rows) < len(must) else None
         what = f"kind={first_missing['kind']}|outcome={first_missing['outcome']}" if first_missing else "extra-rows"
@@ -700,6 +707,12 @@ def items(tier: str, seed: int) -> list[Any]:
         for k in range(len(seq)):
             out.append(({"steps": steps, "db_fault": k}, bound, cap))
             out.append(({"steps": steps, "db_fault": k, "cancel": True}, 1, cap))
+    # many transient errors over one run: every row's first attempt fails / one row fails many times in a row / both
+    long_seq = ("read", "dsc2", "read", "nrc", "key", "read", "timeout", "read", "dsc2", "read")
+    steps = [("req", ALPHA[a][0], ALPHA[a][1], False) for a in long_seq]
+    for ks in ([2 * i for i in range(len(long_seq))], list(range(12)), [0, 1, 2, 5, 6, 7, 8, 9, 12, 15, 18], [3 * i for i in range(9)]):
+        out.append(({"steps": steps, "db_fault": ks}, 1, cap))
+        out.append(({"steps": steps, "db_fault": ks, "cancel": True}, 0 if quick else 1, cap))
     # concurrent users of the ECU object (distinct requests so that rows can be attributed)
     conc = ["dsc2", "key", "reset", "read", "f186=2", "nrc"]
     for trio in itertools.permutations(conc, 3):
